@@ -15,6 +15,7 @@ import (
 )
 
 func verifObf(all bool) *obfuscation {
+	feistel.VerifEHook = rt.UFLookup("E")
 	return &obfuscation{logger: zap.NewNop(), encrypt: feistel.NewFPECipher(hash.SHA_256, "k", 10),
 		encryptAll: all, encryptAttributes: map[string]struct{}{"a": {}}}
 }
